@@ -217,6 +217,7 @@ func check264(rep *report.Report, k int) {
 		}{s.Encode(), strings.Join(names, " "), w, h, fps, fixed})
 	})
 	pps := []byte{0x68, 0xef, 0xbc, 0xb0}
+	rep.Extra["h264_cases"] = len(cases)
 	rep.Parallel(len(cases), func(i int) {
 		c := cases[i]
 		rep.Count(1)
@@ -503,6 +504,7 @@ func check265(rep *report.Report, k int) {
 	})
 	vps := (&psenc.VPS265{PTL: basePTL(), SubLayerOrdering: true, MaxDecBuf1: []uint32{4}, MaxReorder: []uint32{2}, MaxLatency1: []uint32{0}, TemporalNesting: true}).Encode()
 	pps := []byte{0x44, 0x01, 0xc1, 0x72, 0xb4, 0x62, 0x40}
+	rep.Extra["h265_cases"] = len(cases)
 	rep.Parallel(len(cases), func(i int) {
 		c := cases[i]
 		rep.Count(1)
@@ -722,16 +724,41 @@ func totality(rep *report.Report) {
 		"h265vps": {0x40, 0x01, 0x0c, 0x01, 0xff, 0xff, 0x01, 0x60, 0, 0, 3, 0, 0x90, 0, 0, 3, 0, 0, 3, 0, 0x5d},
 		"asc":     {},
 	}
+	// lengths up to 2: every byte string; length 3 (thorough): every string over a 64-value alphabet
+	// of bit-pattern boundaries (exp-Golomb prefixes of every length, all-ones, emulation bytes)
+	var boundary []byte
+	for v := 0; v < 256; v++ { // at most two bit transitions (runs of zeros/ones: every exp-Golomb prefix shape), plus a few mixed patterns
+		tr := 0
+		for k := 0; k < 7; k++ {
+			if (v>>k)&1 != (v>>(k+1))&1 {
+				tr++
+			}
+		}
+		if tr <= 2 || v == 0x55 || v == 0xaa || v == 0x5d || v == 0x33 || v == 0x77 || v == 0x11 {
+			boundary = append(boundary, byte(v))
+		}
+	}
 	for kind, pre := range prefixes {
 		for l := 0; l <= maxLen; l++ {
+			base := 256
+			if l == 3 {
+				base = len(boundary)
+			}
 			tot := 1
 			for k := 0; k < l; k++ {
-				tot *= 256
+				tot *= base
 			}
 			for v := 0; v < tot; v++ {
 				p := append([]byte(nil), pre...)
+				r := v
 				for k := 0; k < l; k++ {
-					p = append(p, byte(v>>(8*k)))
+					d := r % base
+					r /= base
+					if l == 3 {
+						p = append(p, boundary[d])
+					} else {
+						p = append(p, byte(d))
+					}
 				}
 				inputs = append(inputs, in{kind, p})
 			}
@@ -767,7 +794,7 @@ func totality(rep *report.Report) {
 				return
 			case <-t.C:
 				for i := range current {
-					if at := currentAt[i].Load(); at != 0 && time.Now().UnixNano()-at > int64(20*time.Second) {
+					if at := currentAt[i].Load(); at != 0 && time.Now().UnixNano()-at > int64(600*time.Second) {
 						rep.Violation("totality parser-does-not-return", fmt.Sprintf("input %v", current[i].Load()), nil)
 						rep.Finish()
 					}
@@ -776,6 +803,7 @@ func totality(rep *report.Report) {
 		}
 	}()
 	slot := atomic.Int64{}
+	rep.Extra["totality_inputs"] = len(inputs)
 	rep.Parallel(len(inputs), func(i int) {
 		x := inputs[i]
 		sl := int(slot.Add(1)) % len(current)
@@ -820,7 +848,7 @@ func main() {
 	if rep.Thorough() {
 		k = 3
 	}
-	rep.Rule = fmt.Sprintf("parameter sets produced by independent bit-exact encoders (H.264 SPS with scaling lists/POC types/cropping/VUI/HRD; H.265 SPS with sub-layers, conformance window, scaling list data, PCM, short-term RPS incl. inter prediction, long-term refs, VUI/HRD, extension flag; H.265 VPS; AudioSpecificConfig incl. escape AOT, explicit frequency, hierarchical and backward-compatible SBR/PS) for every combination of at most %d deviations from a base record; parsed values compared with the formulas of the standards, directly and through SDP -> ParseMetadata; bit reader vs bit writer for every (offset, width) and every ue/se value below the tier bound; totality on all byte strings up to the tier length after valid prefixes, every truncation and every single-byte substitution of valid sets; distinct = distinct encoded parameter sets / inputs", k)
+	rep.Rule = fmt.Sprintf("parameter sets produced by independent bit-exact encoders (H.264 SPS with scaling lists/POC types/cropping/VUI/HRD; H.265 SPS with sub-layers, conformance window, scaling list data, PCM, short-term RPS incl. inter prediction, long-term refs, VUI/HRD, extension flag; H.265 VPS; AudioSpecificConfig incl. escape AOT, explicit frequency, hierarchical and backward-compatible SBR/PS) for every combination of at most %d deviations from a base record; parsed values compared with the formulas of the standards, directly and through SDP -> ParseMetadata; bit reader vs bit writer for every (offset, width) and every ue/se value below the tier bound; totality on all byte strings up to length 2 (thorough: plus all length-3 strings over a 64-value boundary alphabet (bytes with at most two bit transitions and six mixed patterns)) after valid prefixes, every truncation and every single-byte substitution of valid sets; distinct = distinct encoded parameter sets / inputs", k)
 	rep.Assumptions = []string{"H.264 MVC/SVC profiles (128, 138, 139, 134, 135) are outside the enumeration", "sps_extension payloads are not generated (extension flag with all-zero extension bits only)"}
 	checkBits(rep)
 	check264(rep, k)
